@@ -2,10 +2,12 @@
 package robust
 
 import (
+	"archive/zip"
 	"bytes"
 	"crypto/sha256"
 	"encoding/hex"
 	"fmt"
+	"hash/crc32"
 	"math"
 	"math/rand"
 	"sort"
@@ -317,6 +319,34 @@ func hexOf(b []byte) string {
 
 func zipOf(files map[string]string) []byte { return sess.ZipOf(files) }
 
+// zipWithDeclaredSize writes a well-formed archive in which one member declares an uncompressed size it does not have
+// (zip64 sizes of 2^62 and more - large enough that an allocation of that size fails at once instead of exhausting memory -, zero, one byte off): what the directory says about a member is not to be trusted.
+func zipWithDeclaredSize(r *rand.Rand, files map[string]string) []byte {
+	var names []string
+	for n := range files {
+		names = append(names, n)
+	}
+	sort.Strings(names)
+	victim := names[r.Intn(len(names))]
+	lies := []uint64{1 << 62, 1<<63 - 1, 1 << 62, 0, uint64(len(files[victim]) + 1), uint64(len(files[victim]) / 2)}
+	var buf bytes.Buffer
+	w := zip.NewWriter(&buf)
+	for _, n := range names {
+		data := []byte(files[n])
+		h := &zip.FileHeader{Name: n, Method: zip.Store, CRC32: crc32.ChecksumIEEE(data), CompressedSize64: uint64(len(data)), UncompressedSize64: uint64(len(data))}
+		if n == victim {
+			h.UncompressedSize64 = lies[r.Intn(len(lies))]
+		}
+		fw, err := w.CreateRaw(h)
+		if err != nil {
+			panic(err)
+		}
+		fw.Write(data)
+	}
+	w.Close()
+	return buf.Bytes()
+}
+
 func memberFault(r *rand.Rand, files map[string]string, fault string) map[string]string {
 	out := map[string]string{}
 	var names []string
@@ -491,7 +521,9 @@ func Run(id string, e Entry, n int, seed int64) Record {
 		case "static-container", "static-member":
 			files := sess.StaticFiles[staticNames[r.Intn(2)]]
 			var b []byte
-			if e.Target == "static-container" {
+			if e.Target == "static-container" && e.Fault == "declared-size-lie" {
+				b = zipWithDeclaredSize(r, files)
+			} else if e.Target == "static-container" {
 				b = mutate(r, zipOf(files), e.Fault, zipOf(sess.StaticFiles[staticNames[r.Intn(2)]]))
 			} else {
 				b = zipOf(memberFault(r, files, e.Fault))
